@@ -56,3 +56,11 @@ pub uninterp spec fn offset_lit() -> Cell;
 spec fn entry_offset(e: Cell) -> Cell {
     match xmap_get(tags_of(e), offset_lit()) { Some(v) => v, None => ZERO }
 }
+
+pub uninterp spec fn len_lit() -> Cell;
+pub uninterp spec fn big_lit() -> Cell;
+// NATIVE is the host byte order (little endian on the verification host; src/bitstr.rs picks it by cfg)
+spec fn num_tags(len: int, bo: Byteorder) -> Xmap {
+    let m = xmap_insert(xmap_empty(), len_lit(), Cell::Int(len as i128));
+    if bo == Byteorder::Big && NATIVE != Byteorder::Big { xmap_insert(m, big_lit(), TRUE) } else { m }
+}
